@@ -91,6 +91,9 @@ class Ex(StmtMixin, ExprMixin, CallMixin, CompMixin):
     self.theory = theory
     self.repo = repo
     self.builtins = self.make_builtins()
+    from engine.values import Builtin
+    for k, f in getattr(theory, 'builtin_models', {}).items():
+      self.builtins[k] = Builtin(k, f, needs_ex=True)   # library models specific to this theory (A-LIB)
     self.modcache = {}
     self.obligations = []
     self._seen_obl = set()
